@@ -138,6 +138,7 @@ def deep_shapes():
 def plan(tier, seed):
     sh = []
     sh.append(['deep'])
+    sh.append(['edited'])
     for i in range(16):
         sh.append(['ctl', i, 16])
     for lg in ('LTL', 'CTLS'):
@@ -342,6 +343,74 @@ def run_shard(shard, tier, seed, acc):
                 check_lnot(lg, f, acc, None, tier, state=False)
         acc.sample({'logic': lg, 'formula': 'G(p --> F(q))', 'words': len(get_words(tier))})
         return
+    if kind == 'edited':
+        # histories: rewrite, edit an operand in place, rewrite again (must follow the new tree);
+        # rewrite twice (same result, fresh object)
+        for lg in ('CTL', 'LTL', 'CTLS'):
+            L = lib.LANGS[lg]
+            if lg == 'CTL':
+                pool = [t for t in spaces.ctl_by_size(2, spaces.LEAVES2) if t[0] in ('A', 'E') or t[0] in ('and', 'or', 'imp', 'not')][::3]
+            else:
+                pool = [t for t in spaces.path_by_size(2, spaces.LEAVES2)][::2]
+            for t in pool:
+                o = lib.build(t, L)
+                r1 = call(o.get_equivalent_restricted_formula)
+                if r1[0] != 'ok':
+                    continue
+                # locate a non-leaf operand (under A/E the path operator)
+                target = o
+                tt_ = t
+                path = []
+                if tt_[0] in ('A', 'E') and lg == 'CTL':
+                    target = o._subformula[0]
+                    tt_ = t[1]
+                    path = [0]
+                ci = [i for i, x in enumerate(tt_[1:]) if x[0] in ('ap',)]
+                if not ci:
+                    continue
+                ci = ci[0]
+                new_leaf = ('ap', 'q' if tt_[1 + ci] == ('ap', 'p') else 'p')
+                args = list(target._subformula)
+                args[ci] = lib.build(new_leaf, L)
+                r = call(lambda: target.__init__(*args))
+                if r[0] != 'ok':
+                    continue
+                new_inner = tt_[:1 + ci] + (new_leaf,) + tt_[2 + ci:]
+                t2 = (t[0], new_inner) if path else new_inner
+                rr = call(lib.read, o)
+                if rr[0] != 'ok' or rr[1] != t2:
+                    continue
+                acc.ev(1, 1)
+                r2 = call(o.get_equivalent_restricted_formula)
+                fresh = call(lib.build(t2, L).get_equivalent_restricted_formula)
+                case = {'logic': lg, 'tree': spaces.to_jsonable(t2), 'tree_str': spaces.fstr(t2),
+                        'history': 'rewritten as %s, one operand replaced in place, rewritten again' % spaces.fstr(t)}
+                if r2[0] != 'ok' or fresh[0] != 'ok' or lib.read(r2[1]) != lib.read(fresh[1]):
+                    acc.violation('rewrite-stale-after-edit', case,
+                                  None if fresh[0] != 'ok' else spaces.fstr(lib.read(fresh[1])),
+                                  r2[1:] if r2[0] != 'ok' else spaces.fstr(lib.read(r2[1])))
+                elif r2[1] is r1[1]:
+                    acc.violation('rewrite-returns-cached-object', case)
+        # quoted atom names that print like compound formulas must not be confused with them
+        for lg in ('LTL', 'CTLS', 'CTL'):
+            Pq = lib.LANGS[lg].Parser()
+            for a_text, b_text in (('"p or q" or r', 'p or q or r'), ('not "true"', 'not true'),
+                                   ('"p and q" and r', 'p and q and r'), ('"not p" or q', 'not p or q')):
+                ra, rb = call(Pq, a_text), call(Pq, b_text)
+                if ra[0] != 'ok' or rb[0] != 'ok':
+                    continue
+                for first, second in ((ra[1], rb[1]), (rb[1], ra[1])):
+                    x1 = call(first.get_equivalent_restricted_formula)
+                    x2 = call(second.get_equivalent_restricted_formula)
+                    acc.ev(1, 1)
+                    if x1[0] == 'ok' and x2[0] == 'ok':
+                        y2 = call(lib.LANGS[lg].Parser()(b_text if second is rb[1] else a_text).get_equivalent_restricted_formula)
+                        if y2[0] == 'ok' and lib.read(x2[1]) != lib.read(y2[1]):
+                            acc.violation('rewrite-depends-on-history',
+                                          {'logic': lg, 'tree': ['ap', b_text], 'tree_str': b_text,
+                                           'history': 'after rewriting %r' % (a_text if second is rb[1] else b_text)},
+                                          spaces.fstr(lib.read(y2[1])), spaces.fstr(lib.read(x2[1])))
+        return
     if kind == 'deep':
         maps = [{'p': 'False', 'q': 'True'}, {'p': 'True', 'q': 'False', 'r': 'None'}]
         base = deep_shapes()
@@ -396,6 +465,9 @@ def replay(art):
         sems = [(k, Sem(k)) for k in ks2()]
     else:
         sems = None
+    if 'history' in c:
+        run_shard(['edited'], 'quick', 0, acc)
+        return {'violates': acc.d['nviol'] > 0, 'finding': None, 'detail': acc.d['violations'][:1]}
     if c.get('op') == 'LNot':
         check_lnot_single(lg, t, acc, sems, state)
     elif atoms_of(t, set()) - set(['p', 'q']):
